@@ -561,6 +561,22 @@ pub fn run(tier: &Tier, args: &[String]) -> i32 {
             model: C02Model { stepwise: false, rolls: tier.thorough, two_parents: false },
         },
     ];
+    // the grandchild is suspended from the start (what happens to its
+    // certificate while it is away shows when it comes back: one step less)
+    configs.push(Config {
+        name: "w3-gc-suspended".into(),
+        build: Box::new(|| {
+            let mut w = build_plain_w3()?;
+            w.settle()?;
+            let o = w.apply_pumped(&Op::Suspend { parent: "ca".into(), child: "gc".into() });
+            if !o.ok {
+                return Err(format!("suspend gc: {:?}", o.err));
+            }
+            w.settle()?;
+            Ok(w)
+        }),
+        model: C02Model { stepwise: false, rolls: false, two_parents: false },
+    });
     // two parents that call their class for `ca` by different names
     configs.push(Config {
         name: "w3-two-parents-mapped".into(),
